@@ -161,7 +161,9 @@ def gen_bindkeys(rng, tier):
                 data = []
                 for k in keys:
                     r = rng.random()
-                    if r < 0.4:
+                    if r < 0.12:
+                        shape = "null"
+                    elif r < 0.4:
                         shape = "scalar"
                     elif r < 0.7:
                         shape = "array"
@@ -462,6 +464,7 @@ def covered_dict(a, msg):
 
 ORACLES = [
     Oracle("dict-documents-and-sequences", lambda rng, tier: gen_dict_seq(rng, tier), lambda a: check_dict_seq(a), from_ops=("c10.dict_seq",)),
+    Oracle("shared-metadata", lambda rng, tier: gen_metastate(rng, tier), lambda a: check_metastate(a), from_ops=("bind.metastate",)),
     Oracle("unknown-content-in-documents", gen_oracle_inject, check_injection, covered=covered_injection,
            from_ops=("bind.parse", "c10.xml_e2e"), adapt=lambda op, a: a if "_inj" in a else None),
     Oracle("unknown-keys-in-dictionaries", gen_dict_cases, check_dict, covered=covered_dict),
@@ -647,7 +650,58 @@ def cmp_xml_e2e(mo, io, a):
     return "ok" in io or covered_injection(a, io["err"]) is not None
 
 
+def gen_metastate(rng, tier):
+    lenient = [c for c in L.CFG8 if not c["fail_on_unknown_properties"]]
+    strict = [c for c in L.CFG8 if c["fail_on_unknown_properties"]]
+    n = 0
+    for a in gen_inject(random.Random(rng.random()), tier):
+        inj = a.get("_inj")
+        if not inj:
+            continue
+        n += 1
+        if inj["kind"] not in ("element", "known-copy") and n % 5:
+            continue
+        if n % 3 and tier == "quick":
+            continue
+        le, st = rng.choice(lenient), rng.choice(strict)
+        order = [[le, st], [st, le, st], [le, le], [le, rng.choice(L.CFG8), st]][n % 4]
+        yield {"ctx": a["ctx"], "clazz": a["clazz"], "desc": a["desc"], "_uni": a["_uni"], "_orig": a["_orig"], "_kind": inj["kind"],
+               "calls": [{"tree": a["tree"], "config": c} for c in order]}
+
+
+def impl_metastate(a):
+    return L.real_metastate(uni_of(a), a["clazz"], a["_orig"], a["calls"])
+
+
+def cmp_metastate(mo, io, a):
+    if "ok" not in mo or "ok" not in io:
+        return mo == io
+    if mo["ok"]["changed"] != io["ok"]["changed"]:
+        return False
+    return all(unsupported(m) or m == i for m, i in zip(mo["ok"]["results"], io["ok"]["results"]))
+
+
+def check_metastate(a):
+    """the statement on the real parser alone: every call on the shared context returns what
+    it returns on a fresh context, and the metadata objects are what they were"""
+    u = uni_of(a)
+    got = L.real_metastate(u, a["clazz"], a["_orig"], a["calls"])["ok"]
+    if got["changed"]:
+        return f"the XmlMeta of {got['changed']} differs after the parses (configs {[L.cfg_key(c['config']) for c in a['calls']]})"
+    for i, c in enumerate(a["calls"]):
+        fresh = B.real_parse_tree(u, a["clazz"], c["tree"], c["config"])
+        if got["results"][i] != fresh:
+            return (f"call #{i} (cfg={L.cfg_key(c['config'])}) after {[L.cfg_key(x['config']) for x in a['calls'][:i]]} on the shared context: "
+                    f"{_short(got['results'][i])}, on a fresh context: {_short(fresh)}")
+    return None
+
+
 CORRS += [
+    Corr("bind.metastate", gen_metastate, impl_metastate, compare=cmp_metastate,
+         classify=lambda a, o: f"{a['_kind']}:{'+'.join(L.cfg_key(c['config']) for c in a['calls'])}:"
+                               + ("changed" if o.get("ok", {}).get("changed") else "same"),
+         describe="sequences of parser calls (lenient and strict, documents with unknown content) on ONE XmlContext vs parseSeqS: "
+                  "outcomes call by call, and every slot of the XmlMeta/XmlVar objects before/after (namespace_matches by soundness)"),
     Corr("c10.dict_seq", gen_dict_seq, impl_dict_seq, spec=spec_dict_seq, compare=lambda mo, io, a: diff_dict_seq(mo, io, a) is None,
          classify=classify_dict_seq, nontrivial=lambda a, o: any(d["inj"] for d in a["docs"]),
          describe="spec-level: real DictDecoder / JsonParser over documents of universes with best-match fields (base class with subclasses, "
